@@ -26,6 +26,7 @@ func init() {
 			c.Clause("4 event truncation")
 			checkEventBuffer(c, true)
 			checkFrontEndReadsBody(c)
+			checkErrorReplyReachesSink(c)
 		},
 	})
 }
